@@ -25,6 +25,10 @@ type C20Case struct {
 	Fault       string     `json:"fault"`                // none | error | cancel
 	ErrLate     bool       `json:"error_after_results,omitempty"` // the evaluator fails after it filled the generation's results (solved flag, champion) instead of before
 	ErrKind     string     `json:"error_kind,omitempty"` // plain | canceled | deadline: what the evaluator's own error wraps (the run's context stays alive)
+	// FaultAt: where the context is ended (faults cancel / deadline). "" = inside the evaluator of (FaultTrial, FaultGen);
+	// "start" / "epoch" / "finish" = inside the observer's TrialRunStarted(FaultTrial) / EpochEvaluated(FaultTrial, FaultGen) /
+	// TrialRunFinished(FaultTrial) - an observer that stops the run (a user interface, a budget)
+	FaultAt     string     `json:"fault_at,omitempty"`
 	FaultTrial  int        `json:"fault_trial"`
 	FaultGen    int        `json:"fault_generation"`
 	Observer    bool       `json:"observer"`
@@ -98,6 +102,9 @@ func GenC20() *rapid.Generator[C20Case] {
 		if c.Fault != "none" {
 			c.FaultTrial = rapid.IntRange(0, c.Trials-1).Draw(t, "fault trial")
 			c.FaultGen = rapid.IntRange(0, c.Generations-1).Draw(t, "fault generation")
+		}
+		if (c.Fault == "cancel" || c.Fault == "deadline") && c.Observer {
+			c.FaultAt = rapid.SampledFrom([]string{"", "", "start", "epoch", "finish"}).Draw(t, "fault at")
 		}
 		if c.Generations > 0 && c.Trials > 0 && rapid.IntRange(0, 9).Draw(t, "run until solved") == 4 {
 			// "run until solved": the configured maximum is the largest int, every trial is solved early
@@ -246,7 +253,7 @@ func (r *protoRecorder) GenerationEvaluate(_ context.Context, pop *genetics.Popu
 		}
 	}
 	lateError := false
-	if r.c.Fault != "none" && t == r.c.FaultTrial && g == r.c.FaultGen {
+	if r.c.Fault != "none" && r.c.FaultAt == "" && t == r.c.FaultTrial && g == r.c.FaultGen {
 		r.faulted = true
 		if r.c.Fault == "error" {
 			if !r.c.ErrLate {
@@ -276,6 +283,16 @@ func (r *protoRecorder) TrialRunStarted(trial *experiment.Trial) {
 	if len(trial.Generations) != 0 {
 		r.fail("trial %d is announced with %d generations already recorded", trial.Id, len(trial.Generations))
 	}
+	r.observerFault("start", trial.Id, -1)
+}
+
+// observerFault ends the run's context from inside an observer callback when the case says so.
+func (r *protoRecorder) observerFault(at string, trial, gen int) {
+	if r.c.Fault == "none" || r.c.FaultAt != at || trial != r.c.FaultTrial || (at == "epoch" && gen != r.c.FaultGen) || r.faulted {
+		return
+	}
+	r.faulted = true
+	r.cancel()
 }
 
 func (r *protoRecorder) TrialRunFinished(trial *experiment.Trial) {
@@ -287,6 +304,7 @@ func (r *protoRecorder) TrialRunFinished(trial *experiment.Trial) {
 		_ = r.exp.Solved()
 		_ = r.exp.AvgTrialDuration()
 	}
+	r.observerFault("finish", trial.Id, -1)
 }
 
 func (r *protoRecorder) EpochEvaluated(trial *experiment.Trial, epoch *experiment.Generation) {
@@ -309,6 +327,7 @@ func (r *protoRecorder) EpochEvaluated(trial *experiment.Trial, epoch *experimen
 	if !epoch.Solved && same != 0 && !r.faulted {
 		r.fail("the population of the unsolved generation (%d,%d) was not turned over", trial.Id, epoch.Id)
 	}
+	r.observerFault("epoch", trial.Id, epoch.Id)
 }
 
 // statelessObserver is an observer without fields, used by value: it forwards to the recorder of the case under check.
@@ -324,18 +343,27 @@ func (statelessObserver) EpochEvaluated(t *experiment.Trial, g *experiment.Gener
 
 // expectedTrace is the protocol model: the calls an undisturbed run makes; with a fault, the calls up to the fault.
 func expectedTrace(c C20Case) (trace []protoEvent, complete bool) {
+	faultHere := func(at string, t, g int) bool {
+		return c.Fault != "none" && c.FaultAt == at && t == c.FaultTrial && (g == c.FaultGen || at == "start" || at == "finish")
+	}
 	for t := 0; t < c.Trials; t++ {
 		if c.Observer {
 			trace = append(trace, protoEvent{kind: "start", trial: t, gen: -1})
+			if faultHere("start", t, -1) {
+				return trace, false
+			}
 		}
 		last := -1
 		for g := 0; g < c.Generations; g++ {
 			trace = append(trace, protoEvent{kind: "eval", trial: t, gen: g})
-			if c.Fault != "none" && t == c.FaultTrial && g == c.FaultGen {
+			if faultHere("", t, g) {
 				return trace, false
 			}
 			if c.Observer {
 				trace = append(trace, protoEvent{kind: "epoch", trial: t, gen: g})
+				if faultHere("epoch", t, g) {
+					return trace, false
+				}
 			}
 			last = g
 			if c.SolvedAt[t] == g {
@@ -344,6 +372,9 @@ func expectedTrace(c C20Case) (trace []protoEvent, complete bool) {
 		}
 		if c.Observer {
 			trace = append(trace, protoEvent{kind: "finish", trial: t, gen: last})
+			if faultHere("finish", t, -1) {
+				return trace, false
+			}
 		}
 	}
 	return trace, true
@@ -487,7 +518,11 @@ func CheckC20(c C20Case, rec *Rec) error {
 		// after the fault: no evaluation, and no notification may be repeated
 		seen := map[protoEvent]bool{}
 		for _, e := range r.trace[:len(want)] {
-			seen[protoEvent{kind: e.kind, trial: e.trial, gen: e.gen}] = true
+			k := protoEvent{kind: e.kind, trial: e.trial, gen: e.gen}
+			if e.kind == "finish" {
+				k.gen = 0
+			}
+			seen[k] = true
 		}
 		for _, e := range rest {
 			if e.kind == "eval" {
@@ -516,7 +551,19 @@ func CheckC20(c C20Case, rec *Rec) error {
 			if c.Fault == "deadline" {
 				wantErr = context.DeadlineExceeded
 			}
-			lastPlanned := c.FaultTrial == c.Trials-1 && (c.FaultGen == c.Generations-1 || c.SolvedAt[c.FaultTrial] == c.FaultGen)
+			// was any evaluation still to come when the context ended? (the undisturbed run's trace tells)
+			undisturbed := c
+			undisturbed.Fault = "none"
+			full, _ := expectedTrace(undisturbed)
+			lastPlanned := true
+			for _, e := range full[len(want):] {
+				if e.kind == "eval" {
+					lastPlanned = false
+				}
+			}
+			if c.FaultAt != "" {
+				rec.Class("context ended inside an observer callback (" + c.FaultAt + ")")
+			}
 			if lastPlanned {
 				rec.Class("cancelled in the very last generation of the run (returned error not asserted)")
 			} else if !errors.Is(err, wantErr) {
